@@ -821,6 +821,59 @@ func c03OtherRejects(e *c03Env, which string) {
 	}
 }
 
+// c03MultiHistory reads a long history of written UPC/EAN symbols of all four kinds on ONE
+// multi-format reader instance (what was read before must not change what is read next):
+// every UPC-A / EAN-13 / UPC-E symbol directly after an EAN-8 symbol, and the other way round.
+func c03MultiHistory(r *fw.Rec, n int, allFormats bool) {
+	rng := r.Rng
+	var hints map[gozxing.DecodeHintType]interface{}
+	if allFormats {
+		hints = map[gozxing.DecodeHintType]interface{}{gozxing.DecodeHintType_POSSIBLE_FORMATS: []gozxing.BarcodeFormat{gozxing.BarcodeFormat_EAN_13, gozxing.BarcodeFormat_EAN_8, gozxing.BarcodeFormat_UPC_E}}
+	}
+	multi := oned.NewMultiFormatUPCEANReader(hints)
+	writers := map[*odUPCEAN]gozxing.Writer{}
+	for _, s := range odAllUPCEAN {
+		writers[s] = s.writer()
+	}
+	read := func(s *odUPCEAN, after string) bool {
+		payload := string(byte('0'+rng.Intn(s.maxFirst))) + odDigits(rng, s.payload-1)
+		full := s.full(payload)
+		want, wantF := full, s.format
+		if s == odUPCA { // documented: without UPC_A among the requested formats a UPC-A symbol is the EAN-13 number with a leading 0
+			want, wantF = "0"+full, gozxing.BarcodeFormat_EAN_13
+		}
+		var eh map[gozxing.EncodeHintType]interface{}
+		if s == odUPCE {
+			eh = map[gozxing.EncodeHintType]interface{}{gozxing.EncodeHintType_MARGIN: 14}
+		}
+		m, err := writers[s].Encode(payload, s.format, 0, 1, eh)
+		if err != nil {
+			r.Violation("model-mismatch", s.name+".write:rejects-acceptable-content", fmt.Sprintf("%s writer refused %s: %v", s.name, payload, err), nil)
+			return false
+		}
+		bmp, _ := gozxing.NewBinaryBitmapFromImage(m)
+		res, err := multi.Decode(bmp, hints)
+		r.Evals(1)
+		data := map[string]interface{}{"symbology": s.name, "content": payload, "read_directly_after": after, "possible_formats_hint": allFormats}
+		if err != nil {
+			r.Violation("model-mismatch", "multi-history:"+s.name+":error-after-"+after, fmt.Sprintf("one multi-format reader instance: %s %s, read directly after %s symbol, failed: %v", s.name, payload, after, err), data)
+			return false
+		}
+		if res.GetText() != want || res.GetBarcodeFormat() != wantF {
+			r.Violation("model-mismatch", "multi-history:"+s.name+":wrong-result-after-"+after, fmt.Sprintf("one multi-format reader instance: %s %s, read directly after %s symbol, returned %s/%v, expected %s/%v", s.name, payload, after, res.GetText(), res.GetBarcodeFormat(), want, wantF), data)
+			return false
+		}
+		r.Tally("multi_history_" + s.name + "_after_" + after)
+		return true
+	}
+	for i := 0; i < n; i++ {
+		if !read(odEAN8, "an earlier") || !read(odUPCA, "an EAN-8") || !read(odEAN8, "a UPC-A") || !read(odEAN13, "an EAN-8") || !read(odUPCE, "an EAN-13") || !read(odUPCA, "a UPC-E") {
+			return
+		}
+	}
+	r.Nontrivial(fmt.Sprintf("multi-history/%v/%d", allFormats, rng.Uint64()))
+}
+
 // ---------------------------------------------------------------------------
 // exhaustive / sampled sweeps of UPC-E and EAN-8 at height 1
 // ---------------------------------------------------------------------------
@@ -918,7 +971,7 @@ func c03Sweep(r *fw.Rec, s *odUPCEAN, lo, hi, sample int) {
 // ---------------------------------------------------------------------------
 
 func c03(c *fw.Ctx) {
-	c.Rule("per symbology seeded contents from the accepted set of the quantifier (EAN-13 12/13, EAN-8 7/8, UPC-A 11/12, UPC-E 7/8 digits with number system 0/1, incl. all-0, all-9 and zero-rich numbers; Code 39 1..80 alphabet characters and full ASCII whose escaped form fits 80; Code 93 ASCII 0..127 fitting 80 symbol characters; Code 128 ASCII 0..127 up to 80 with digit runs of every parity at start/middle/end, controls, lower case and DEL, and every content of forced code sets A (0..95), B (32..127), C (even digit strings); ITF every length 6..14 and 16..80; Codabar 2..40 data characters bare and with all 16 normal, 16 alternate and lower-case guard pairs) x requested width in {0, natural, natural+k, 2..6 x natural + k}, height 0..80, MARGIN hint absent / default / default+1..40 (int and string form); systematic cases: every single character of each alphabet, every Code 128 digit-run length 1..12 in every context; rejection list: every wrong length, every byte outside the alphabet, every wrong check digit, unpaired/mixed Codabar guards; sweeps: all (thorough) or 100 000 sampled (quick) UPC-E numbers and EAN-8 payloads at height 1. Expected text comes from onedref (independent mod-10, UPC-E expansion, escape tables). distinct = distinct (symbology, content, size)")
+	c.Rule("per symbology seeded contents from the accepted set of the quantifier (EAN-13 12/13, EAN-8 7/8, UPC-A 11/12, UPC-E 7/8 digits with number system 0/1, incl. all-0, all-9 and zero-rich numbers; Code 39 1..80 alphabet characters and full ASCII whose escaped form fits 80; Code 93 ASCII 0..127 fitting 80 symbol characters; Code 128 ASCII 0..127 up to 80 with digit runs of every parity at start/middle/end, controls, lower case and DEL, and every content of forced code sets A (0..95), B (32..127), C (even digit strings); ITF every length 6..14 and 16..80; Codabar 2..40 data characters bare and with all 16 normal, 16 alternate and lower-case guard pairs) x requested width in {0, natural, natural+k, 2..6 x natural + k}, height 0..80, MARGIN hint absent / default / default+1..40 (int and string form); systematic cases: every single character of each alphabet, every Code 128 digit-run length 1..12 in every context; rejection list: every wrong length, every byte outside the alphabet, every wrong check digit, unpaired/mixed Codabar guards; sweeps: all (thorough) or 100 000 sampled (quick) UPC-E numbers and EAN-8 payloads at height 1. Expected text comes from onedref (independent mod-10, UPC-E expansion, escape tables). distinct = distinct (symbology, content, size) Histories of 4 800 reads of written EAN-8 / UPC-A / EAN-13 / UPC-E symbols on ONE multi-format reader instance (with and without POSSIBLE_FORMATS), every kind directly after every other.")
 	c.Assume("natural width is taken from the writer's own answer to width 0 (workload only, not oracle); images above 160 000 pixels get their height reduced")
 	c.Assume("don't care (DESIGN C03): multi-format reader without POSSIBLE_FORMATS may report a UPC-A symbol as EAN-13 '0'+content; Code 39 is read with the plain reader when the content lies inside the 43-character alphabet and with the extended reader otherwise (the inherent ambiguity of full-ASCII Code 39 is not charged); ITF lengths 2 and 4 (outside the reader's accepted lengths) and Codabar with fewer than 2 data characters are outside the quantifier and only tallied; Code 39 full-ASCII contents whose escaped form exceeds 80 symbol characters, Code 93 contents over 80 symbol characters, Code 128 Latin-1 characters 128..255 (reachable through FNC4 in ISO/IEC 15417), Codabar contents mixing the guard families (A..E) and the size of the returned matrix are not fixed by the statement: observed and tallied only; lower-case Codabar guards may be refused, but must round-trip if accepted; Code 128 FNC escapes U+00F1..U+00F4 are not content and not generated")
 	c.Assume("Codabar canonical form: the default reader returns the data characters without start/stop; with RETURN_CODABAR_START_END the canonical letters A-D (T N * E and lower case are aliases, bare data gets A..A)")
@@ -1261,6 +1314,15 @@ func c03(c *fw.Ctx) {
 			}
 		}
 	}
+	nh := 16
+	if !q {
+		nh = 160
+	}
+	for i := 0; i < nh; i++ {
+		i := i
+		c.Run(fmt.Sprintf("multi-history/%d", i), func(r *fw.Rec) { c03MultiHistory(r, 800, i%2 == 1) })
+	}
+	c.Floor("multi_history_upca_after_an EAN-8", 10000)
 	if !q {
 		c.Exhaustive("all 2 000 000 UPC-E numbers (number system 0/1 x 6 digits) written from the 7-digit form and read back at height 1")
 		c.Exhaustive("all 10 000 000 EAN-8 payloads written from the 7-digit form and read back at height 1")
